@@ -175,6 +175,12 @@ func (s *Server) Run(addr string, opt ...Option) error {
 		connID++
 		select {
 		case <-s.shutdownCtx.Done():
+			// Stop may have been called before the listener existed (or
+			// before it was wrapped for TLS), so it's not necessarily closed
+			// yet and we must not leave the port bound.
+			if err := s.listener.Close(); err != nil && !strings.Contains(err.Error(), "use of closed network connection") {
+				return fmt.Errorf("%s: error closing listener: %w", op, err)
+			}
 			return nil
 		default:
 			// need a default to fall through to rest of loop...
